@@ -117,7 +117,12 @@ static int disk_eq(int f, char *txt)
 	return env_fs[i].len == n && !memcmp(env_fs[i].data, txt, n);
 }
 static int nopens(int f) { int i = env_find(fname[f]); return i < 0 ? 0 : env_fs[i].opens; }
+static int file_exists(int f) { int i = env_find(fname[f]); return i >= 0 && env_fs[i].exists; }
+/* three cases per buffer: text != file (must be refused); at the saved position of its history (must be allowed);
+ * text == file at another position of the history, e.g. after e! u (the editor may treat it as modified) */
 static int dirty(int f) { return G[f].open && !disk_eq(f, G[f].st[G[f].u]); }
+static int atsaved(int f) { return !G[f].open || G[f].disk == G[f].u; }
+static int allatsaved(void) { int i; for (i = 0; i < MAXF; i++) if (!atsaved(i)) return 0; return 1; }
 static int anydirty(void) { int i; for (i = 0; i < MAXF; i++) if (dirty(i)) return 1; return 0; }
 static void push_text(int f, char *txt)
 {
@@ -191,7 +196,7 @@ static void listing_shows_dirty(void)
 /* run one command (c < 0: the final q) and check it against the ghost */
 static void step(int c, int N)
 {
-	int st, f, i, wasdirty, rowbefore, target = -1, prevalt = alt;
+	int st, f, i, wasdirty, maybe, rowbefore, target = -1, prevalt = alt;
 	char line[32];
 	char *before;
 	if (c == 20)
@@ -199,6 +204,7 @@ static void step(int c, int N)
 	if ((c == 9 || c == 17 || c == 18) && nmru == 16 && !G[N - 1].open)
 		symx_assume(!dirty(mru[15]));	/* a 17th file recycles the oldest slot unchecked: outside the 16-buffer bound */
 	wasdirty = dirty(cur);
+	maybe = !wasdirty && !atsaved(cur);
 	rowbefore = xrow;
 	before = exh_text();
 	if (c == 2 || c == 16 || c == 19)
@@ -225,8 +231,16 @@ static void step(int c, int N)
 			}
 		} else {
 			symx_reach("quit-allowed");
-			if (G[cur].disk == G[cur].u)
+			if (allatsaved())
 				symx_assert(xquit == 1, "q exits when every buffer is at its saved state");
+			else if (xquit == 0) {	/* some buffer holds the text of its file at another position of its history */
+				symx_assert(!atsaved(f), "a refused q switches to a buffer that is not at its saved state");
+				if (f != cur) {
+					G[cur].row = rowbefore;
+					cur = f;
+					mru_front(f);
+				}
+			}
 		}
 		others_untouched();
 		free(before);
@@ -292,6 +306,16 @@ static void step(int c, int N)
 		break;
 	case 8:		/* e! without a path: the file replaces the text as one more (undoable) edit, and counts as saved */
 		symx_assert(f == cur, "e! stays on the file");
+		if (!file_exists(cur)) {	/* nothing to reload: no edit, no new history step; a modified buffer stays modified */
+			symx_reach("reload-missing");
+			if (!atsaved(cur)) {
+				symx_assert(st != 0, "e! of a modified buffer whose file does not exist fails");
+				symx_assert(exh_text_is(before), "a failed e! keeps the text");
+			} else {
+				G[cur].disk = G[cur].u;
+			}
+			break;
+		}
 		symx_assert(st == 0, "e! succeeds");
 		push(cur);
 		G[cur].disk = G[cur].u;
@@ -332,7 +356,7 @@ static void step(int c, int N)
 		if (target < 0 || (c >= 10 && c != 17 && c != 18 && !G[target].open)) {
 			symx_reach("no-such-buffer");
 			symx_assert(f == cur, "a switch to a buffer that does not exist stays put");
-		} else if (wasdirty && target != cur && !forced) {
+		} else if ((wasdirty || (maybe && st != 0 && f == cur)) && target != cur && !forced) {
 			symx_reach("switch-refused");
 			symx_assert(st != 0 && f == cur, "e / b without ! are refused while the buffer differs from its file");
 			symx_assert(exh_text_is(before), "a refused switch discards nothing");
